@@ -877,11 +877,19 @@ func checkProbe(e *Env, m *loaderModel) {
 			r.Bad("E3.probe", "Supported/go-defer", p.Pos(c.Pos()), "go/defer in the probe")
 		}
 	}
-	if len(calls) != 1 || flow.Callee(calls[0]) != m.seccompW {
-		r.Bad("E3.probe", "Supported/one-call", p.Pos(fn.Pos()), fmt.Sprintf("the probe must perform exactly one call, to the seccomp wrapper; found %d call(s)", len(calls)))
+	// besides the probe itself only error predicates of the standard library (no effect on the process)
+	var probes []*ssa.Call
+	for _, call := range calls {
+		if flow.CalleeIs(call, "errors", "Is") || flow.CalleeIs(call, "errors", "As") {
+			continue
+		}
+		probes = append(probes, call)
+	}
+	if len(probes) != 1 || flow.Callee(probes[0]) != m.seccompW {
+		r.Bad("E3.probe", "Supported/one-call", p.Pos(fn.Pos()), fmt.Sprintf("the probe must perform exactly one call, to the seccomp wrapper; found %d call(s)", len(probes)))
 		return
 	}
-	c := calls[0]
+	c := probes[0]
 	or := e.Oracle()
 	op, ok1 := flow.ConstInt(c.Call.Args[0])
 	fl, ok2 := flow.ConstInt(c.Call.Args[1])
@@ -921,11 +929,27 @@ func checkProbe(e *Env, m *loaderModel) {
 		}
 		return false
 	}
+	// errors.Is(err, syscall.EINVAL): for an Errno target this is the comparison (Errno.Is only answers for the os.Err* targets)
+	probeCallTest = func(call *ssa.Call) bool {
+		if !flow.CalleeIs(call, "errors", "Is") || len(call.Call.Args) != 2 || call.Call.Args[0] != ssa.Value(c) {
+			return false
+		}
+		other := call.Call.Args[1]
+		if mi, ok := other.(*ssa.MakeInterface); ok {
+			other = mi.X
+		}
+		k, ok := flow.ConstInt(other)
+		return ok && uint64(k) == or.Consts["EINVAL"] && isNamed(other.Type(), "syscall", "Errno")
+	}
+	defer func() { probeCallTest = nil }()
 	for _, ret := range flow.Returns(fn) {
 		good := trueImplies(flow.RetResults(ret)[0], ret.Block(), nil, isEinval, 0)
 		r.Check(good, "E3.probe", "Supported/true-on-EINVAL", p.Pos(ret.Pos()), "true only when the probe's error equals EINVAL", "Supported can return true without `err == EINVAL`")
 	}
 }
+
+// probeCallTest: a boolean call that is equivalent to the comparison trueImplies looks for (set by checkProbe).
+var probeCallTest func(*ssa.Call) bool
 
 // trueImplies: whenever the boolean v (evaluated at the end of block b, reached from the conditions conds) is true, a
 // comparison satisfying test holds.  Handles constants under dominating branches, the comparison itself, negations,
@@ -937,6 +961,9 @@ func trueImplies(v ssa.Value, b *ssa.BasicBlock, extra []flow.Cond, test func(*s
 	holds := func() bool {
 		for _, cd := range append(flow.DomConds(b), extra...) {
 			c := flow.Norm(cd)
+			if call, ok := c.V.(*ssa.Call); ok && c.Pol && probeCallTest != nil && probeCallTest(call) {
+				return true
+			}
 			bo, ok := c.V.(*ssa.BinOp)
 			if !ok {
 				continue
@@ -954,6 +981,11 @@ func trueImplies(v ssa.Value, b *ssa.BasicBlock, extra []flow.Cond, test func(*s
 	case *ssa.Const:
 		if x.Value == nil || !constant.BoolVal(x.Value) {
 			return true // never true
+		}
+		return holds()
+	case *ssa.Call:
+		if probeCallTest != nil && probeCallTest(x) {
+			return true
 		}
 		return holds()
 	case *ssa.BinOp:
